@@ -1065,7 +1065,10 @@ func (c *Conn) handleBdat(arg string) {
 
 		c.writeResponse(dataErrorToStatus(err))
 
-		if err == errPanic {
+		if err == errPanic || chunk.N > 0 {
+			// After a panic, or when the rest of the chunk could not be
+			// read (read error or timeout): it must not be parsed as
+			// commands.
 			c.Close()
 		}
 
@@ -1113,8 +1116,13 @@ var ErrDataReset = errors.New("smtp: message transmission aborted")
 // discardChunk consumes the payload of a refused BDAT command.
 func (c *Conn) discardChunk(size uint64) {
 	c.lineLimitReader.setLimit(0)
-	io.Copy(ioutil.Discard, io.LimitReader(c.text.R, int64(size)))
+	n, _ := io.Copy(ioutil.Discard, io.LimitReader(c.text.R, int64(size)))
 	c.lineLimitReader.setLimit(c.server.MaxLineLength)
+	if n < int64(size) {
+		// The rest of the chunk could not be read (read error or
+		// timeout): it must not be parsed as commands.
+		c.Close()
+	}
 }
 
 var errPanic = &SMTPError{
